@@ -698,28 +698,42 @@ func TestLimitTwin(t *testing.T) {
 		if quiet || gradProbe >= 0 {
 			last.inflight, last.drop = est, false
 		}
-		starts := []int64{0}
+		// a start time, and which of the compared RTTs serves as the lower one (-1: every pair)
+		type startAt struct {
+			st int64
+			lo int
+		}
+		starts := []startAt{{0, -1}}
 		if k%2 == 1 {
 			// the final sample started around the time of the latest completions (possibly before the last one ended) ...
-			starts = []int64{clockT + b*int64(r.between(-12, 3))}
-			// ... and such that, of the RTTs compared, some make it complete just before an earlier completion (the latest,
-			// the latest that moved the estimate, the furthest one, one of the last few) and some after
+			starts = []startAt{{clockT + b*int64(r.between(-12, 3)), -1}}
+			// ... and such that the lower of the RTTs compared makes it complete just before an earlier completion - the latest,
+			// the latest that moved the estimate, the furthest one, each of the last six - and the higher ones at or after it
 			anchors := []int64{endLast, endMoved, endMax}
-			for i := len(hist) - 1; i >= 0 && i >= len(hist)-4; i-- {
+			for i := len(hist) - 1; i >= 0 && i >= len(hist)-6; i-- {
 				anchors = append(anchors, hist[i].start+hist[i].rtt)
 			}
-			for i := 0; i < 4; i++ {
-				if a := anchors[r.intn(len(anchors))]; a > 0 {
-					starts = append(starts, a-cands[r.intn(5)]-1)
+			seen := map[int64]bool{}
+			for _, a := range anchors {
+				if a <= 0 || seen[a] {
+					continue
+				}
+				seen[a] = true
+				for lo := 0; lo < 3; lo++ {
+					starts = append(starts, startAt{a - cands[lo] - 1, lo})
 				}
 			}
 		}
-		for _, st := range starts {
+		for _, sa := range starts {
+			st := sa.st
 			if st < 1 && k%2 == 1 {
 				st = 1
 			}
 			last.start = st
 			for a := 0; a < len(cands); a++ {
+				if sa.lo >= 0 && a != sa.lo {
+					continue
+				}
 				for c := a + 1; c < len(cands); c++ {
 					lo, hi := cands[a], cands[c]
 					if lo >= hi {
